@@ -379,7 +379,7 @@ pub fn seq_runs(id: &str, tier: &str) -> Vec<(String, SeqParams)> {
             // ids are values too: the same exploration with client ids that a lossy encoding
             // somewhere below could confuse (all-decimal neighbours, tiny ids, nil / all-ones /
             // one bit apart)
-            for (fam, what) in [(1u8, "all-decimal client ids that differ in the last digit"), (2, "tiny client ids (…0001, …0002, …0003)"), (3, "client ids nil, all-ones and one bit apart")] {
+            for (fam, what) in [(1u8, "all-decimal client ids that differ in the last digit"), (2, "tiny client ids (…0001, …0002, …0003)"), (3, "client ids nil, all-ones and one bit apart"), (4, "first parents that are combinations (xor, sum, difference) of client ids")] {
                 let mut a = alpha(3, 1, true, false, true, &[]);
                 a.id_family = fam;
                 v.push(base(&format!("three clients, {what}"), a, vec![MEM_LIB, SQL_LIB, SQL_HTTP], if quick { 3 } else { 4 }, 1));
@@ -1564,7 +1564,7 @@ fn c04_check(tier: &str, replay: Option<&str>) -> i32 {
     let mut tasks = vec![];
     for h in &hists {
         let names: Vec<&str> = h.iter().map(|c| c.name()).collect();
-        let big = h.iter().any(|c| matches!(c, crate::ecrash::COp::Av1m | crate::ecrash::COp::Av100k | crate::ecrash::COp::As2m));
+        let big = h.iter().any(|c| matches!(c, crate::ecrash::COp::Av1m | crate::ecrash::COp::Av100k | crate::ecrash::COp::Av300k | crate::ecrash::COp::As2m));
         let pp = if big { parts * 4 } else { parts };
         for part in 0..pp {
             // torn sectors and the larger subset cap for histories of up to two requests; length-3
@@ -1789,8 +1789,14 @@ fn c05_check(tier: &str, replay: Option<&str>) -> i32 {
         }
     }
     let mut pool = crate::pool::Pool::spawn(threads(), "fault", &json!({"seed": seed()}));
+    // a scenario takes seconds (sleeps of the busy handler are intercepted, not slept); nothing
+    // but the subject can stop a worker for minutes: a request that never returns after a storage
+    // failure - "later requests are served normally" is part of the property, so that is a verdict
+    let stall_s: u64 = if quick { 180 } else { 900 };
+    pool.stall_s = Some(stall_s);
     let results = pool.map(&tasks);
     drop(pool);
+    let mut stalled_reported: std::collections::BTreeSet<String> = Default::default();
     let mut classes: std::collections::BTreeMap<String, u64> = Default::default();
     let mut samples = vec![];
     let mut runs = 0u64;
@@ -1820,6 +1826,19 @@ fn c05_check(tier: &str, replay: Option<&str>) -> i32 {
                         signature: format!("efault|{}|{}|{}|{}", tasks[k]["layer"].as_str().unwrap_or(""), tasks[k]["spec"].as_str().unwrap_or(""), tasks[k]["op"].as_str().unwrap_or(""), f["class"].as_str().unwrap_or("")),
                         message: format!("[{} layer, {}, state {}, request {}] {} — fault {}", tasks[k]["layer"].as_str().unwrap_or(""), tasks[k]["spec"].as_str().unwrap_or(""), tasks[k]["state"].as_str().unwrap_or(""), tasks[k]["op"].as_str().unwrap_or(""), f["msg"].as_str().unwrap_or(""), f["fault"]),
                         replay: json!({"engine": "efault", "task": tasks[k], "fault": f["fault"]}),
+                    });
+                }
+            }
+            Err(e) if e.contains("worker stalled") => {
+                // (the tasks queued behind the stalled one on the same worker come back stalled
+                // too: one violation per layer / implementation / request kind)
+                let sig = format!("efault|{}|{}|{}|no-progress", tasks[k]["layer"].as_str().unwrap_or(""), tasks[k]["spec"].as_str().unwrap_or(""), tasks[k]["op"].as_str().unwrap_or(""));
+                if stalled_reported.insert(sig.clone()) {
+                    rep.violations.push(Violation {
+                        property: "C05".into(),
+                        signature: sig,
+                        message: format!("[{} layer, {}, state {}, request {}] no progress for {stall_s} s: a request (the one made to fail, or one after it) never returned — after a storage failure later requests must be served normally", tasks[k]["layer"].as_str().unwrap_or(""), tasks[k]["spec"].as_str().unwrap_or(""), tasks[k]["state"].as_str().unwrap_or(""), tasks[k]["op"].as_str().unwrap_or("")),
+                        replay: json!({"engine": "efault", "task": tasks[k], "fault": {"plan": null}}),
                     });
                 }
             }
